@@ -139,3 +139,43 @@ PROPS["C07"] = dict(
                 "period equals the tock; the timer's _last is a past reading (tp, op) with _stop - op >= next deadline in true time (existential witnessed by the path's readings); "
                 "no drift: under a steady clock one iteration moves the deadline by exactly one tock however late the wake-up (loop-body clause). MonoTimer.latest/start/restart/"
                 "expired/remaining are proved separately (C08 contracts).")
+
+HTTP_NOTE = ("Native bounded harness (harness/http_native.py): generated messages x (whole, 1-byte, every 2-way, random k-way) fragmentations, "
+             "near-valid byte strings through the real service loops on fake sockets, WSGI apps x request sequences with an independent strict response parser. ")
+HTTP_EXT = ["EXT str.find/partition/slicing on bytes as SMT string operations (pyvc.builtins); MAX_LINE_SIZE read from the source"]
+
+PROPS["C12"]["harness"] = "harness.combo:C12"
+PROPS["C12"]["explanation"] += " http level: native harness drives http.Server over a fake socket in virtual tyme (silent, partial request then silent, bursts, steady traffic)."
+
+PROPS["C13"] = dict(
+    contracts=["contracts.http_parse"], harness="harness.http_native:C13", level="other", trusted_base=HTTP_EXT,
+    assumptions=["L-FRAG (lemmas/LFrag.lean): idle-stutter + prefix-stability of every step imply independence of any fragmentation; machine-checked over abstract steps",
+                 "parseLeader/parseChunk/parseHead/parseBody steps are not under pyvc contract yet (no coroutine support for next(sub-generator) in the engine): bounded natively"],
+    explanation="parseLine (the leaf of every HTTP parser) PROVED per step for symbolic buffers: a step that waits leaves the buffer untouched (idle-stutter); a step that yields a line "
+                "yields the bytes up to the EARLIEST terminator and consumes line+terminator; progress on b implies the same progress on b++e with rest++e (prefix-stability, relational "
+                "two-run VC; z3 with cvc5 taking the str.indexof queries z3 leaves unknown). Proved for eols=(CRLF,); for (CRLF, LF) the code searches by terminator precedence, which is "
+                "a recorded finding. " + HTTP_NOTE)
+PROPS["C17"] = dict(
+    contracts=["contracts.http_parse"], harness="harness.http_native:C17", level="other", trusted_base=HTTP_EXT,
+    explanation="parseLine step contracts with eols=(CRLF,) PROVED (chunk-size and chunk-end lines). Chunk decode round trip packChunk -> parseChunk over random bodies, chunk partitions, "
+                "trailers and wire fragmentations, and rejection of non-plain-hex sizes: bounded natively. " + HTTP_NOTE)
+PROPS["C15"] = dict(
+    contracts=["contracts.http_parse"], harness="harness.http_native:C15", level="other", trusted_base=HTTP_EXT,
+    explanation="parseLine step contracts with eols=(CRLF, LF, CR) (earliest-terminator and prefix-stability clauses: both are recorded findings on this tree). Event dispatch against an SSE reference "
+                "written from the ABNF, plain and chunked transport, all line-terminator mixes, fragmentations: bounded natively. " + HTTP_NOTE)
+PROPS["C16"] = dict(
+    contracts=["contracts.http_parse"], harness="harness.http_native:C16", level="other", trusted_base=HTTP_EXT,
+    explanation="parseLine PROVED to raise only LineTooLong (an HTTPException) and only beyond the limit. Everything above it: near-valid and mutated byte strings through Server.service, "
+                "BareServer.service and http Client.service on fake sockets with a second, healthy connection that must still be served: bounded natively. " + HTTP_NOTE)
+PROPS["C14"] = dict(
+    contracts=[], harness="harness.http_native:C14", level="exploration", technique="bounded runtime contract (round trip Requester.build -> Requestant.parse -> Server.buildEnviron) -- stand-in; the property runs through urllib.parse/json/str.format chains that neither solver decides",
+    explanation="Bounded stand-in only (DESIGN.md C14): random methods, unicode/reserved-character paths, query dicts, header sets, raw/JSON/form bodies built by the real Requester and "
+                "recovered by the real Requestant and buildEnviron.")
+PROPS["C18"] = dict(
+    contracts=[], harness="harness.http_native:C18", level="exploration", technique="bounded runtime contract on the real http.Server over fake sockets, independent strict response-stream parser as oracle -- stand-in",
+    explanation="Bounded stand-in: WSGI apps (status, headers with/without Content-Length exact or short, body pieces incl. empty, list or generator) x request sequences "
+                "(HTTP/1.0/1.1, keep-alive/close, pipelined or sequential); the byte stream written to the socket is parsed by an independent strict parser: framing, order, body clamp, close decision.")
+PROPS["C19"] = dict(
+    contracts=[], harness="harness.http_native:C19", level="exploration", technique="bounded runtime contract on the real http Client over a fake socket with a scripted server -- stand-in",
+    explanation="Bounded stand-in: request queues (GET/POST/PUT/HEAD) against immediate, delayed and fragmented scripted responses; at most one request in flight, transmit order, one response "
+                "per request in order with its body and originating request; redirect followed with history; https->http refused.")
